@@ -247,11 +247,11 @@ fn c07_remaining_size_too_small_u8() {
     remaining_size_too_small::<u8, 1>();
 }
 
-//@ prop=C07 tier=thorough kind=hold
+//@ prop=C07 tier=experimental kind=hold
 //@ timeout=3600 mem=20
 //@ enc=DecreasePosition::try_new, DecreasePositionFlags::init, DecreasePosition::is_remaining_size_too_small, PositionExt::size_delta_in_tokens
 //@ bound=T=u16, DECIMALS=2: every position size (usd, tokens), collateral, side, size delta, flag combination and min position size
-//@ stubs=none; hook: DecreasePosition::verif_is_remaining_size_too_small (thin wrapper)
+//@ stubs=none; hook: DecreasePosition::verif_is_remaining_size_too_small (thin wrapper). Not validated: timed out at 900 s (16-bit ceil mul_div against the 32-bit reference); a longer run was not completed in this round
 #[kani::proof]
 fn c07_remaining_size_too_small_u16() {
     remaining_size_too_small::<u16, 2>();
